@@ -178,11 +178,11 @@ func Run(r *mc.Run) {
 	// ---- A ----
 	epochs := []string{"", "0", "1", "00", "01", "7", "2147483647", "4294967296"}
 	var ups []string
-	for _, s := range gen.AllStrings(gen.Chars("01a.+~-:"), 2) {
+	for _, s := range gen.AllStrings(gen.Chars("01aZ.+~-:"), 2) {
 		ups = append(ups, "0"+s, "1"+s)
 	}
 	revs := []string{}
-	for _, s := range gen.AllStrings(gen.Chars("0a.+~"), 2) {
+	for _, s := range gen.AllStrings(gen.Chars("0aZ.+~"), 2) {
 		if s != "" {
 			revs = append(revs, s)
 		}
@@ -301,7 +301,7 @@ func Run(r *mc.Run) {
 		})
 
 	// ---- C ----
-	sigma := append(gen.Chars("01a.+~-: "), "٣") // plus a non-ASCII decimal digit (unicode.IsDigit is true for it)
+	sigma := append(gen.Chars("01aZ.+~-: "), "٣") // plus a non-ASCII decimal digit (unicode.IsDigit is true for it)
 	L := r.Pick(5, 7)
 	// shard on the first two symbols
 	r.Scenario("C-accepted-roundtrip", map[string]interface{}{"alphabet": "01a.+~-: space and U+0663 (a non-ASCII decimal digit)", "max_len": L}, len(sigma)*len(sigma)+1, func(sh int, st *mc.Stats) bool {
